@@ -413,16 +413,19 @@ def gather_default_attributes(obj, defaults):
     IR traversal to accumulate defaults for child nodes.
 
     Arguments:
-        defaults: A dict of `{ "defaults": { attr.name.text: attr } }`
+        defaults: A dict of `{ "defaults": { name: attr } }`, where name is
+            `attr.name.text` for core attributes and "(back_end) name" for
+            back-end-specific ones.
 
     Returns:
-        A dict of `{ "defaults": { attr.name.text: attr } }` with any defaults
-        provided by `obj` added/overridden.
+        A dict of `{ "defaults": { name: attr } }` with any defaults provided by
+        `obj` added/overridden.
     """
     defaults = defaults.copy()
     for attr in obj.attribute:
         if attr.is_default:
             defaulted_attr = ir_data_utils.copy(attr)
             defaulted_attr.is_default = False
-            defaults[attr.name.text] = defaulted_attr
+            # A `(java) $default byte_order` is not a default for `byte_order`.
+            defaults[_attribute_name_for_errors(attr)] = defaulted_attr
     return {"defaults": defaults}
